@@ -57,6 +57,11 @@ impl Fx {
 			self.e.process(c, self.dt, &self.info);
 		}
 	}
+	/// the device sample rate changes under the effect
+	fn retune(&mut self, sr: u32) {
+		self.e.on_change_sample_rate(sr);
+		self.dt = 1.0 / sr as f64;
+	}
 	fn run(&mut self, x: &[S2]) -> Vec<S2> {
 		let mut buf: Vec<Frame> = x.iter().map(|s| Frame::new(s[0], s[1])).collect();
 		self.process(&mut buf);
@@ -281,12 +286,12 @@ struct SosCase<'a> {
 	/// (frequency, expected linear gain, name) facts stated by the property, judged without the reference
 	laws: Vec<(f64, f64, &'static str)>,
 }
-fn check_sos(c: &SosCase, mk: &dyn Fn() -> Fx, ctx: &mut Ctx) {
+fn check_sos(c: &SosCase, mk: &dyn Fn(u32) -> Fx, ctx: &mut Ctx) {
 	let srf = c.sr as f64;
 	if let Some(alt) = &c.clamped {
 		// one root cause, one signature: kira silently moves a corner below sample_rate/10000 up to sample_rate/10000
 		let x = signal(2, 2048);
-		let y = mk().run(&x);
+		let y = mk(c.sr).run(&x);
 		note(ctx, &x, &y);
 		if differs(&y, &c.sos.run(&x), &x).is_some() && differs(&y, &alt.run(&x), &x).is_none() {
 			ctx.fail(
@@ -298,7 +303,7 @@ fn check_sos(c: &SosCase, mk: &dyn Fn() -> Fx, ctx: &mut Ctx) {
 	}
 	for (si, name) in SIGNALS.iter().enumerate() {
 		let x = signal(si, 2048);
-		let y = mk().run(&x);
+		let y = mk(c.sr).run(&x);
 		note(ctx, &x, &y);
 		if !finite(&y) {
 			ctx.fail(format!("{}: output not finite :: {}", c.eff, c.feature), format!("{} input={}", c.detail, name));
@@ -318,7 +323,7 @@ fn check_sos(c: &SosCase, mk: &dyn Fn() -> Fx, ctx: &mut Ctx) {
 	let settle = c.sos.settle();
 	let mut measured: Vec<(f64, [f64; 2])> = vec![];
 	for &f in &c.probes {
-		let g = mk().sine_gain(f, srf, settle);
+		let g = mk(c.sr).sine_gain(f, srf, settle);
 		ctx.evals += 1;
 		ctx.nontrivial_extra += 1;
 		ctx.outcome(hash64(&((db(g[0].max(1e-9)) * 10.0).round() as i64, (f / srf * 1e4) as i64)));
@@ -333,6 +338,28 @@ fn check_sos(c: &SosCase, mk: &dyn Fn() -> Fx, ctx: &mut Ctx) {
 			}
 		}
 		measured.push((f, g));
+	}
+	// "at any sample rate": the same effect instance after the device rate changed under it (it ran at another rate
+	// first, then on_change_sample_rate) has the response of the design at the new rate
+	for &prev in &[c.sr / 2 + 1000, c.sr * 2] {
+		for &f in &c.probes {
+			let mut fx = mk(prev);
+			let _ = fx.run(&signal(2, 96));
+			fx.retune(c.sr);
+			let g = fx.sine_gain(f, srf, settle);
+			ctx.evals += 1;
+			ctx.nontrivial_extra += 1;
+			let want = c.sos.h((PI * f / srf).tan());
+			for ch in 0..2 {
+				if !close(g[ch], want) {
+					ctx.fail(
+						format!("{}: after a sample-rate change the steady-state sine gain differs from |H| of the cited design at the new rate by more than 0.1 dB :: {}", c.eff, c.feature),
+						format!("{} (first run at {} Hz, then changed) probe={} Hz channel {}: measured {:.3} dB, cited design {:.3} dB", c.detail, prev, f, ch, db(g[ch]), db(want)),
+					);
+					break;
+				}
+			}
+		}
 	}
 	for &(f, want, name) in &c.laws {
 		let Some((_, g)) = measured.iter().find(|(pf, _)| *pf == f) else { continue };
@@ -407,7 +434,7 @@ fn run_filter(tier: Tier, mode: FilterMode, sr: u32, ctx: &mut Ctx) {
 						_ => vec![],
 					},
 				};
-				let mk = || Fx::new(FilterBuilder::new().mode(mode).cutoff(fc).resonance(res).mix(Mix(mix)), sr);
+				let mk = |r: u32| Fx::new(FilterBuilder::new().mode(mode).cutoff(fc).resonance(res).mix(Mix(mix)), r);
 				if let Err(p) = catch(|| check_sos(&c, &mk, ctx)) {
 					ctx.fail(format!("panic: {} :: filter {}", p, c.feature), c.detail.clone());
 				}
@@ -466,7 +493,7 @@ fn run_eq(tier: Tier, kind: EqFilterKind, sr: u32, q: f64, ctx: &mut Ctx) {
 						],
 					},
 				};
-				let mk = || Fx::new(EqFilterBuilder::new(kind, fc, Decibels(gain), q), sr);
+				let mk = |r: u32| Fx::new(EqFilterBuilder::new(kind, fc, Decibels(gain), q), r);
 				if let Err(p) = catch(|| check_sos(&c, &mk, ctx)) {
 					ctx.fail(format!("panic: {} :: eq {}", p, c.feature), c.detail.clone());
 				}
@@ -771,6 +798,26 @@ fn run_comp(tier: Tier, sr: u32, threshold: f64, ctx: &mut Ctx) {
 								ctx.fail(
 									"compressor: output differs from the reference dB-domain compressor, sample by sample",
 									format!("{} input=noise table x {} with bursts of 300 frames (right = -left), {} frames; {}", cfg, top, n, df),
+								);
+							}
+							// (1b) the same with gaps of exact digital silence (a sound ended, another begins): the envelope keeps
+							// following its release time constant through the gap
+							let x: Vec<S2> = (0..n)
+								.map(|i| {
+									let v = match (i / 300) % 3 {
+										0 => t[i % 64] * top,
+										1 => 0.0,
+										_ => t[i % 64] * top * 0.05,
+									};
+									[v, -v]
+								})
+								.collect();
+							let y = mk().run(&x);
+							note(ctx, &x, &y);
+							if let Some(df) = differs(&y, &ref_comp(&x, sr, &c), &x) {
+								ctx.fail(
+									"compressor: output differs from the reference dB-domain compressor on a signal with gaps of exact silence",
+									format!("{} input=noise table x {} / 300 frames of 0.0 / noise x 0.05 (right = -left), {} frames; {}", cfg, top, n, df),
 								);
 							}
 							if mix != 1.0 {
